@@ -20,7 +20,8 @@ ASSUMPTIONS = ["math/rand (go1.23, v1 API): Intn/Int31n transcribed in Model/Ran
 LEVEL_TEXT = ("theorems in coq/Properties/C16.v about Model/TreeGen.v for every choice vector within bounds and every size; "
               "correspondence: exact structural equality (neighbour order, names, which Exp draw lands on which branch) with the Go "
               "result, on the recorded random stream; oracle: Spec/GenShape.v on Go's own output")
-LEVEL_NOTE = ""
+LEVEL_NOTE = ("2 tips unrooted (and depth 1 unrooted) crashed, then returned an error with the tree / an unreadable Newick text; "
+              "fixed in /repo (79eaf44, 475e9fd) by raising the minimum to 3 tips / depth 2; tip index and bitsets are judged by the oracle only")
 
 GENS = ["uniform", "yule", "caterpillar"]
 
@@ -72,11 +73,7 @@ def _is(case, gens, n, rooted):
         return False
     return _f(case, "gen") in gens and _f(case, "n") == str(n) and _f(case, "rooted") == ("T" if rooted else "F")
 
-MATCHERS = {
-    # RandomUniform/Yule/CaterpillarBinaryTree(2, false): the documented minimum ("less than 2 tips" is what is
-    # rejected) returns the error of RerootFirst ("No nodes with 3 neighors ...") together with the tree
-    "C16-unrooted-2tips-rejected": lambda c: _is(c, ("uniform", "yule", "caterpillar"), 2, False),
-}
+MATCHERS = {}
 
 # ---------------------------------------------------------------- the commands (extra)
 
@@ -133,8 +130,8 @@ def extra(tier, seed, st):
     d = cli.scratch("c16x-")
     try:
         runs = []
-        for cmd, flag, minu, minr in [("uniformtree", "-l", 2, 3), ("yuletree", "-l", 2, 3), ("caterpillartree", "-l", 2, 3),
-                                      ("balancedtree", "-d", 1, 1), ("startree", "-l", 2, None)]:
+        for cmd, flag, minu, minr in [("uniformtree", "-l", 3, 3), ("yuletree", "-l", 3, 3), ("caterpillartree", "-l", 3, 3),
+                                      ("balancedtree", "-d", 2, 1), ("startree", "-l", 2, None)]:
             for rooted in ([False, True] if minr is not None else [False]):
                 for n in range(0, 7):
                     runs.append((cmd, flag, n, rooted, n >= (minr if rooted else minu)))
@@ -171,11 +168,3 @@ def extra(tier, seed, st):
     finally:
         shutil.rmtree(d, ignore_errors=True)
     return fails, info
-
-def _xname(c):
-    return ((c.get("meta") or {}).get("extra") or "")
-
-MATCHERS["C16-unrooted-2tips-rejected"] = (lambda old: (lambda c: old(c) or _xname(c) in (
-    "uniformtree -l 2 unrooted", "yuletree -l 2 unrooted", "caterpillartree -l 2 unrooted")))(MATCHERS["C16-unrooted-2tips-rejected"])
-# `gotree generate balancedtree -d 1` (unrooted): UnRoot makes the tip Tip1 the root; Newick() prints "Tip0:lenTip1;"
-MATCHERS["C16-balanced-depth1-unrooted-newick"] = lambda c: _xname(c) == "balancedtree -d 1 unrooted"
